@@ -107,5 +107,3 @@ func traceCase(w *gen.Writer, sh *shardH, q *QSpec, detail any) {
 }
 
 func runComponents(w *gen.Writer, r *gen.Rand, f gen.Flags) {}
-
-func replayModelCase(w *gen.Writer, in string) {}
